@@ -60,7 +60,7 @@ def stages(tier, rng, only=None):
                      lambda: _cases(grids.datasets(3, 2)[::2] + [ac.cyclic_dataset(rng, 3, 4) for _ in range(nq)],
                                     ac.TINY, False), _nt_part, partrun.init, aux=aux))
     lexd = grids.datasets(3, 2)[::4] + [ac.cyclic_dataset(rng, 3, 5, incomplete=k % 2 == 1) for k in range(nq)] \
-        + [ac.cycle_plus(rng) for _ in range(nq // 2)]
+        + [ac.cycle_plus(rng) for _ in range(nq // 2)] + [ac.cycle_with_singletons(rng) for _ in range(nq)]
     # the free solver cannot resolve relative differences of 6e-11: the ParCons runs use the CPLEX stand-in here
     out.append(ac.stage("lexicographic_penalties", PID, lambda: ac.lex_cases(lexd, PARCONS, env="standin")
                         + ac.lex_cases(lexd, ["BioConsert", "ExactCplex(opt)", "ExactOptim1"]), _nt_run))
@@ -68,7 +68,7 @@ def stages(tier, rng, only=None):
     def lex_parts():
         cs = _cases(lexd, [ac.PRESET[0]], False)
         for k, c in enumerate(cs):
-            c["lex"] = k % 5
+            c["lex"] = k % 7
         return cs
     out.append(Stage("partitions_lexicographic", "Trace_Part", partrun.run_partitions, lex_parts, _nt_part, partrun.init,
                      aux=aux))
